@@ -259,7 +259,6 @@ func (m *Manager) open(closeGen uint64) {
 	m.debug.Log("Opening")
 	err := m.connect(false, closeGen)
 	if err != nil && err != errClosedWhileConnecting {
-		m.cleanup()
 		m.maybeReconnectOnOpen(closeGen)
 	}
 }
